@@ -129,7 +129,7 @@ pub fn check(t: &Trace<'_>, out: &mut CaseOut) -> bool {
         let ops: Vec<(usize, &OpRec)> = t.log.ops.iter().enumerate().filter(|(_, o)| o.conn == Some(c.idx)).collect();
         // bytes left behind by an abandoned QoS 0 publish (documented as not cancel-safe) or by a
         // runaway call make the framing of everything after them meaningless
-        if *off != 0 && ops.iter().any(|(_, o)| matches!(o.outcome, Outcome::Cancelled | Outcome::Watchdog) && o.out_after > o.out_before) {
+        if *off != 0 && ops.iter().any(|(_, o)| left_bytes_behind(t.log, o)) {
             continue;
         }
         // the CONNECT itself (whatever connect() then returned: a broker cannot answer it)
